@@ -82,6 +82,11 @@ func makeFiles() []fileSpec {
 	}
 	add("r8193.bin", randData(8193, 1))
 	add("r100003.bin", randData(100003, 2))
+	// the band served by the small-file reader of the os filesystem but larger than its 4096-byte copy buffer
+	for _, n := range []int{5000, 6000, 8000} {
+		add(fmt.Sprintf("t%d.txt", n), textData(n))
+	}
+	add("r6000.bin", randData(6000, 3))
 	return fs
 }
 
@@ -91,6 +96,8 @@ func makeFiles() []fileSpec {
 type config struct {
 	name     string
 	compress bool
+	osfs     bool // served by the os filesystem (small-file reader for files up to 8 KiB)
+	wrapped  bool // FS handler behind CompressHandler*: the body stream is copied into a compressor, not via ReadFrom
 	h        fasthttp.RequestHandler
 	srv      *fasthttp.Server
 	stop     chan struct{}
@@ -126,14 +133,20 @@ func makeConfigs(t *testing.T, files []fileSpec) []*config {
 	}
 	rootA := root("a")
 	var cfgs []*config
-	add := func(name string, f *fasthttp.FS) {
+	addW := func(name string, f *fasthttp.FS, wrap func(fasthttp.RequestHandler) fasthttp.RequestHandler) {
 		f.AcceptByteRange = true
 		f.CleanStop = make(chan struct{})
 		h := f.NewRequestHandler()
-		c := &config{name: name, compress: f.Compress, h: h, stop: f.CleanStop}
+		c := &config{name: name, compress: f.Compress, osfs: f.FS == nil, stop: f.CleanStop}
+		if wrap != nil {
+			h = wrap(h)
+			c.wrapped = true
+		}
+		c.h = h
 		c.srv = &fasthttp.Server{Handler: h, Logger: nopLogger{}, NoDefaultServerHeader: true}
 		cfgs = append(cfgs, c)
 	}
+	add := func(name string, f *fasthttp.FS) { addW(name, f, nil) }
 	add("os-plain", &fasthttp.FS{Root: rootA})
 	add("os-gzip", &fasthttp.FS{Root: root("b"), Compress: true})
 	add("os-br-zstd", &fasthttp.FS{Root: root("c"), Compress: true, CompressBrotli: true, CompressZstd: true, CompressRoot: filepath.Join(top, "c-compressed")})
@@ -143,6 +156,14 @@ func makeConfigs(t *testing.T, files []fileSpec) []*config {
 	add("mapfs-gzip-shortcache", &fasthttp.FS{FS: mapfs, Compress: true, CacheDuration: 150 * time.Millisecond})
 	add("dirfs-plain", &fasthttp.FS{FS: os.DirFS(rootA)})
 	add("dirfs-gzip", &fasthttp.FS{FS: os.DirFS(rootA), Compress: true})
+	// the FS handler behind the transparent response compressors
+	addW("os-plain+CompressHandler", &fasthttp.FS{Root: rootA}, fasthttp.CompressHandler)
+	addW("os-plain+CompressHandlerBrotliLevel", &fasthttp.FS{Root: rootA}, func(h fasthttp.RequestHandler) fasthttp.RequestHandler {
+		return fasthttp.CompressHandlerBrotliLevel(h, fasthttp.CompressBrotliBestSpeed, fasthttp.CompressBestSpeed)
+	})
+	addW("mapfs-plain+CompressHandlerLevel", &fasthttp.FS{FS: mapfs}, func(h fasthttp.RequestHandler) fasthttp.RequestHandler {
+		return fasthttp.CompressHandlerLevel(h, fasthttp.CompressBestSpeed)
+	})
 	return cfgs
 }
 
@@ -200,6 +221,16 @@ var garbageRanges = []string{"bytes", "bytes=", "bytes=-", "bytes=--1", "bytes=a
 
 // genRange returns a Range header value (""= no header) and a generator tag.
 func genRange(r intner, L int) (string, string) {
+	if L > 4200 && r.Intn(8) == 0 {
+		// longer than the 4096-byte copy buffer and ending before the end of the file
+		n := 4097 + r.Intn(L-4098-1)
+		a := r.Intn(L - 1 - n)
+		tag := "long"
+		if L <= 8192 {
+			tag = "long-smallfile"
+		}
+		return fmt.Sprintf("bytes=%d-%d", a, a+n-1), tag
+	}
 	switch k := r.Intn(100); {
 	case k < 22:
 		return "", "none"
@@ -436,6 +467,7 @@ type reqSpec struct {
 }
 
 type observed struct {
+	via    string // wire | wire-compresshandler | direct-read | direct-bodywriteto
 	status int
 	hdr    http.Header
 	body   []byte
@@ -474,6 +506,8 @@ func decodeBody(enc string, body []byte) ([]byte, error) {
 		out, err = unbrotli(body)
 	case "zstd":
 		out, err = unzstd(body)
+	case "deflate":
+		out, err = inflate(body)
 	default:
 		return nil, fmt.Errorf("unknown content-encoding %q", enc)
 	}
@@ -597,9 +631,20 @@ func judge(q *reqSpec, o *observed, ev func(string)) []problem {
 			bad("body-mismatch-200", "%s 200 body (encoding %q) is %d bytes %s, file is %d bytes", ctx, ce, len(got), firstDiff(got, data), L)
 		}
 	case 206:
+		body206 := o.body
 		if ce != "" {
-			ev("skipped_range_with_content_encoding")
-			return ps
+			if !q.cfg.wrapped {
+				ev("skipped_range_with_content_encoding")
+				return ps
+			}
+			// the partial response was compressed afterwards by CompressHandler*: it must decode to the slice
+			dec, err := decodeBody(ce, o.body)
+			if err != nil {
+				bad("undecodable-"+ce, "%s 206 Content-Encoding %s does not decode: %v", ctx, ce, err)
+				return ps
+			}
+			ev("decoded_206_" + ce)
+			body206 = dec
 		}
 		s, e, total, ok := parseContentRange(o.hdr.Get("Content-Range"))
 		if !ok {
@@ -614,10 +659,17 @@ func judge(q *reqSpec, o *observed, ev func(string)) []problem {
 			bad("content-range-mismatch", "%s 206 Content-Range %q, requested slice is [%d,%d]", ctx, o.hdr.Get("Content-Range"), ws, we)
 			return ps
 		}
-		if !bytes.Equal(o.body, data[s:e+1]) {
-			bad("body-mismatch-206", "%s 206 Content-Range %q body is %d bytes %s", ctx, o.hdr.Get("Content-Range"), len(o.body), firstDiff(o.body, data[s:e+1]))
+		if !bytes.Equal(body206, data[s:e+1]) {
+			key := "body-mismatch-206"
+			if len(body206) > int(e-s+1) && bytes.Equal(body206[:e-s+1], data[s:e+1]) {
+				key = "body-beyond-range-end-206"
+			}
+			bad(key, "%s 206 Content-Range %q (Content-Encoding %q) body is %d bytes %s", ctx, o.hdr.Get("Content-Range"), ce, len(body206), firstDiff(body206, data[s:e+1]))
 		}
-		if cl := o.hdr.Get("Content-Length"); cl != "" && cl != strconv.FormatInt(e-s+1, 10) {
+		if q.cfg.osfs && L > 4096 && L <= 8192 && e-s+1 > 4096 && e < L-1 {
+			ev("smallfile_long_range_206_" + o.via)
+		}
+		if cl := o.hdr.Get("Content-Length"); ce == "" && cl != "" && cl != strconv.FormatInt(e-s+1, 10) {
 			bad("content-length-206", "%s 206 Content-Length %s for Content-Range %q", ctx, cl, o.hdr.Get("Content-Range"))
 		}
 	}
@@ -643,6 +695,10 @@ func compareHeadGet(q *reqSpec, head, get *observed) []problem {
 	ctx := fmt.Sprintf("[%s %s Range=%q If-Modified-Since=%q Accept-Encoding=%q]", q.cfg.name, q.file.name, q.rng, q.ims, q.ae)
 	if head.status != get.status {
 		ps = append(ps, problem{"head-get-status", fmt.Sprintf("%s HEAD status %d, GET status %d", ctx, head.status, get.status)})
+		return ps
+	}
+	if q.cfg.wrapped {
+		// CompressHandler* decides on the body it sees (none for HEAD): the statement is about the FS handler's own headers
 		return ps
 	}
 	keys := map[string]bool{}
@@ -766,7 +822,12 @@ func (o *oddReader) Read(p []byte) (int, error) {
 	return o.r.Read(p[:n])
 }
 
-func direct(q *reqSpec) (o *observed, panicked string) {
+// plainWriter has Write only: no ReadFrom, so the readers' own copy loops run.
+type plainWriter struct{ b []byte }
+
+func (w *plainWriter) Write(p []byte) (int, error) { w.b = append(w.b, p...); return len(p), nil }
+
+func direct(q *reqSpec, viaWriteTo bool) (o *observed, panicked string) {
 	defer func() {
 		if p := recover(); p != nil {
 			panicked = fmt.Sprintf("%v\n%s", p, debug.Stack())
@@ -788,7 +849,7 @@ func direct(q *reqSpec) (o *observed, panicked string) {
 	var ctx fasthttp.RequestCtx
 	ctx.Init(&req, nil, nopLogger{})
 	q.cfg.h(&ctx)
-	o = &observed{status: ctx.Response.StatusCode(), hdr: http.Header{}}
+	o = &observed{via: "direct-read", status: ctx.Response.StatusCode(), hdr: http.Header{}}
 	for _, k := range []string{"Content-Range", "Content-Encoding", "Last-Modified", "Content-Type", "Accept-Ranges"} {
 		if v := ctx.Response.Header.Peek(k); len(v) > 0 {
 			o.hdr.Set(k, string(v))
@@ -798,12 +859,21 @@ func direct(q *reqSpec) (o *observed, panicked string) {
 		if cl := ctx.Response.Header.ContentLength(); cl >= 0 {
 			o.hdr.Set("Content-Length", strconv.Itoa(cl))
 		}
-		b, err := io.ReadAll(&oddReader{r: ctx.Response.BodyStream()})
-		ctx.Response.CloseBodyStream()
-		if err != nil {
-			o.hdr.Set("X-Read-Error", err.Error())
+		if viaWriteTo {
+			o.via = "direct-bodywriteto"
+			w := &plainWriter{}
+			if err := ctx.Response.BodyWriteTo(w); err != nil {
+				o.hdr.Set("X-Read-Error", err.Error())
+			}
+			o.body = w.b
+		} else {
+			b, err := io.ReadAll(&oddReader{r: ctx.Response.BodyStream()})
+			ctx.Response.CloseBodyStream()
+			if err != nil {
+				o.hdr.Set("X-Read-Error", err.Error())
+			}
+			o.body = b
 		}
-		o.body = b
 	} else {
 		o.body = append([]byte(nil), ctx.Response.Body()...)
 	}
@@ -815,9 +885,9 @@ func direct(q *reqSpec) (o *observed, panicked string) {
 func TestC24(t *testing.T) {
 	r := mon.Start(t, "C24")
 	defer r.Finish()
-	r.Rule("case = (handler configuration out of 9: os root / fstest.MapFS / os.DirFS, Compress off/gzip/br/zstd, short cache) x (file of size 0,1,8191,8192,8193,100003, text or random bytes, whole-second or sub-second mtime) x Range value from a grammar (a-b, a-, -n, -0, whitespace, multi-range, numbers beyond int64, garbage; numbers placed around 0, len-1, len, page sizes) x Accept-Encoding x If-Modified-Since (equal/before/after mtime, obsolete formats, near misses, garbage); each case is executed as HEAD then GET through Server.ServeConn on an in-memory connection and, for a quarter of them, by a direct handler call whose body stream is read with odd sizes; distinct = set of (configuration, file, generator tags of range/encoding/date, transport); non-trivial = the request carries Range, If-Modified-Since or Accept-Encoding. Second loop: ParseByteRange(value, length) over the same grammar and lengths up to MaxInt64")
+	r.Rule("case = (handler configuration out of 12: os root / fstest.MapFS / os.DirFS, Compress off/gzip/br/zstd, short cache, and the FS handler behind CompressHandler / CompressHandlerBrotliLevel / CompressHandlerLevel) x (file of size 0,1,5000,6000,8000,8191,8192,8193,100003, text or random bytes, whole-second or sub-second mtime) x Range value from a grammar (a-b, a-, -n, -0, ranges longer than 4096 bytes that end before EOF, whitespace, multi-range, numbers beyond int64, garbage; numbers placed around 0, len-1, len, page sizes) x Accept-Encoding x If-Modified-Since (equal/before/after mtime, obsolete formats, near misses, garbage); each case is executed as HEAD then GET through Server.ServeConn on an in-memory connection and, for a third of them, by a direct handler call whose body stream is read with odd sizes or drained with Response.BodyWriteTo into a writer that has no ReadFrom; one case in six is aimed at the small-file reader (os root, file in (4 KiB, 8 KiB], long range, compressing wrapper or BodyWriteTo); distinct = set of (configuration, file, generator tags of range/encoding/date, transport); non-trivial = the request carries Range, If-Modified-Since or Accept-Encoding. Second loop: ParseByteRange(value, length) over the same grammar and lengths up to MaxInt64")
 	r.Assume("oracle written from RFC 7232/7233: file bytes and mtimes are those the test wrote; response framing is parsed by net/http; gzip by compress/gzip, br/zstd by the andybalholm/klauspost decoders")
-	r.Assume("left unjudged (counted as skipped_*): multi-range and whitespace-containing or otherwise malformed Range values, numbers that do not fit int64, suffix ranges on an empty file, last<first (200 or 416 accepted), 206 together with Content-Encoding, If-Modified-Since in obsolete/near-miss formats, and the precedence between a not-newer If-Modified-Since and a Range (304 or the range outcome accepted); an unjudged 206 must still be self-consistent (Content-Range inside the file, body = that slice)")
+	r.Assume("left unjudged (counted as skipped_*): multi-range and whitespace-containing or otherwise malformed Range values, numbers that do not fit int64, suffix ranges on an empty file, last<first (200 or 416 accepted), 206 together with Content-Encoding from the FS handler itself (behind CompressHandler* it is decoded and compared with the slice), HEAD/GET header equality behind CompressHandler* (status only), If-Modified-Since in obsolete/near-miss formats, and the precedence between a not-newer If-Modified-Since and a Range (304 or the range outcome accepted); an unjudged 206 must still be self-consistent (Content-Range inside the file, body = that slice)")
 	files := makeFiles()
 	cfgs := makeConfigs(t, files)
 	defer func() {
@@ -827,6 +897,18 @@ func TestC24(t *testing.T) {
 	}()
 
 	n := r.N(50_000, 1_000_000)
+	var osCfgs []*config
+	for _, c := range cfgs {
+		if c.osfs {
+			osCfgs = append(osCfgs, c)
+		}
+	}
+	var bandFiles []*fileSpec
+	for k := range files {
+		if L := len(files[k].data); L > 4200 && L <= 8192 {
+			bandFiles = append(bandFiles, &files[k])
+		}
+	}
 	const block = 250
 	blocks := (n + block - 1) / block
 	ev := func(name string) { r.Event(name, 1) }
@@ -866,11 +948,27 @@ func TestC24(t *testing.T) {
 			rnd := r.Rand("http", i)
 			cfg := cfgs[rnd.Intn(len(cfgs))]
 			f := &files[rnd.Intn(len(files))]
+			focus := rnd.Intn(6) == 0
+			if focus {
+				// the small-file reader's own copy loop: os filesystem, file in (4 KiB, 8 KiB], consumers without ReadFrom
+				cfg = osCfgs[rnd.Intn(len(osCfgs))]
+				f = bandFiles[rnd.Intn(len(bandFiles))]
+			}
 			q := &reqSpec{cfg: cfg, file: f}
 			var tr, ta, ti string
 			q.rng, tr = genRange(rnd, len(f.data))
+			if focus && rnd.Intn(4) != 0 {
+				L := len(f.data)
+				m := 4097 + rnd.Intn(L-4098-1)
+				a := rnd.Intn(L - 1 - m)
+				q.rng, tr = fmt.Sprintf("bytes=%d-%d", a, a+m-1), "long-smallfile"
+			}
 			q.hasR = tr != "none" || rnd.Intn(20) == 0
 			q.ae, ta = genAE(rnd)
+			if focus && cfg.wrapped && rnd.Intn(3) != 0 {
+				q.ae = pick(rnd, "gzip", "deflate", "br", "zstd", "gzip, deflate, br")
+				ta = "focus"
+			}
 			q.hasAE = ta != "none"
 			q.ims, ti = genIMS(rnd, f.mtime)
 			q.hasI = ti != "none" || rnd.Intn(20) == 0
@@ -880,8 +978,9 @@ func TestC24(t *testing.T) {
 			if !validFieldValue(q.ims) {
 				q.ims, ti = "\xfe\xff", "garbage"
 			}
-			alsoDirect := rnd.Intn(4) == 0
-			class := fmt.Sprintf("%s|%s|r=%s|ae=%s|ims=%s|direct=%v", cfg.name, f.name, tr, ta, ti, alsoDirect)
+			alsoDirect := rnd.Intn(3) == 0
+			viaWriteTo := rnd.Intn(2) == 0
+			class := fmt.Sprintf("%s|%s|r=%s|ae=%s|ims=%s|direct=%v/%v", cfg.name, f.name, tr, ta, ti, alsoDirect, viaWriteTo)
 			r.Case(class, q.hasR || q.hasAE || q.hasI)
 
 			// --- through the server: HEAD, then GET
@@ -927,7 +1026,11 @@ func TestC24(t *testing.T) {
 				continue
 			}
 			r.Event("responses_judged", 1)
-			report(i, q, "wire", judge(q, get, ev))
+			get.via = "wire"
+			if cfg.wrapped && get.hdr.Get("Content-Encoding") != "" {
+				get.via = "wire-compresshandler"
+			}
+			report(i, q, get.via, judge(q, get, ev))
 			r.Event("head_get_compared", 1)
 			report(i, q, "wire", compareHeadGet(q, head, get))
 			if len(head.body) != 0 {
@@ -940,7 +1043,7 @@ func TestC24(t *testing.T) {
 
 			// --- direct handler call, body stream read with odd sizes
 			if alsoDirect {
-				o, p := direct(q)
+				o, p := direct(q, viaWriteTo)
 				if p != "" {
 					r.Violation(i, "panic", "panic in handler: "+p, map[string]any{"range": q.rng, "file": f.name, "config": cfg.name})
 					continue
@@ -950,7 +1053,12 @@ func TestC24(t *testing.T) {
 					r.Violation(i, "stream-read-error", fmt.Sprintf("[%s %s Range=%q] body stream: %s", cfg.name, f.name, q.rng, e), nil)
 					continue
 				}
-				report(i, q, "direct", judge(q, o, func(string) {}))
+				r.Event("direct_judged_"+o.via, 1)
+				report(i, q, o.via, judge(q, o, func(name string) {
+					if strings.HasPrefix(name, "smallfile_long_range") || strings.HasPrefix(name, "decoded_206") {
+						r.Event(name, 1)
+					}
+				}))
 			}
 		}
 		for cfg := range conns {
@@ -967,6 +1075,10 @@ func TestC24(t *testing.T) {
 	r.Require("decoded_gzip", 1)
 	r.Require("decoded_br", 1)
 	r.Require("decoded_zstd", 1)
+	r.Require("decoded_deflate", 1)
+	r.Require("smallfile_long_range_206_wire-compresshandler", n/2500)
+	r.Require("smallfile_long_range_206_direct-bodywriteto", n/2500)
+	r.Require("smallfile_long_range_206_direct-read", n/2500)
 
 	// ---- ParseByteRange sweep
 	m := r.N(2_000_000, 20_000_000)
